@@ -209,6 +209,17 @@ func allChecks() []CheckSpec {
 						c.MaxPaths = 4000000
 						c.MaxWallS = 1200
 					}},
+				{Fn: "verifC10InboundNeedsLoop", Lemma: "agent state is touched by loop tasks only: with the loop closed (no task can run) a packet arriving at a candidate's socket — a STUN header of any class/method from a known remote or any address, or data from an uncached source — changes nothing (nothing sent, no liveness instant moved, no pair/selection/transaction change) and delivers nothing",
+					Bounds: "1+1 candidates, both roles, 20-byte STUN header with symbolic type and transaction id or 3 symbolic data bytes, source = the known remote or any IPv4 address", MustReach: []string{"stun", "data", "done"}},
+				{Fn: "verifC10RestartIsOneTask", Lemma: "a public operation is one task: on the real loop, a concurrent observer task sees the agent either wholly before Restart (old local and remote credentials, its candidate) or wholly after it (new local credentials, no remote credentials, no candidate), under every explored schedule",
+					Bounds: "1 local candidate, remote credentials set; observer vs Restart (delayed by 0..2 hand-overs); schedules with <= 2 preemptions", MustReach: []string{"observer-first", "restart-first", "done"},
+					Cfg: func(c *HarnessCfg, tier int) {
+						c.GoPolicy = "explore"
+						c.ContextBound = 2
+						c.FreeChoiceBound = 3 + tier
+						c.MaxPaths = 3000000
+						c.MaxWallS = 1200
+					}},
 				{Fn: "verifC10CloseTwice", Lemma: "two concurrent Close calls and a submission: both Close calls return after the single callback; the submission succeeds iff its task ran",
 					Bounds: "5 threads, context bound 1 (quick) / 2 (thorough)", MustReach: []string{"done"},
 					Cfg: func(c *HarnessCfg, tier int) { c.GoPolicy = "explore"; c.ContextBound = 1 + tier; c.MaxPaths = 4000000 }},
@@ -355,6 +366,14 @@ func allChecks() []CheckSpec {
 						c.MaxPaths = 4000000
 						c.MaxWallS = 1500
 					}},
+				{Fn: "verifC13AbortInterleavedAP", Lemma: "the same with the sibling writing through the AddrPort path (writeToUDPAddrPort on an AddrPort-capable socket): a sibling's write that starts after another user's cancelled write had the shared socket's deadline armed waits and then succeeds (one already in flight at that moment may share the blocked write's fate: it succeeds or times out); everybody returns, the state word is 0, the deadline is cleared, a later write succeeds",
+					Bounds: "threads: harness, 2 writers, canceller, the internal abort goroutine, connWorker; at most 1 (thorough 2) preemptive context switches at synchronisation-point granularity (atomic operations included)", MustReach: []string{"addrport-sibling", "sibling-starts-during-or-after-the-abort", "deadline-was-armed", "done"},
+					Cfg: func(c *HarnessCfg, tier int) {
+						c.GoPolicy = "explore"
+						c.ContextBound = 1 + tier
+						c.MaxPaths = 6000000
+						c.MaxWallS = 2400
+					}},
 				{Fn: "verifC13PendingRead", Lemma: "schedule exploration over the real sharedPacketConn.ReadFrom/readContext/Close and udpMuxedConn.readFromContext: closing a handle fails that handle's own pending (or just starting) read — with no read deadline, with a far read deadline armed on it, or with one armed on the sibling — while the sibling keeps the underlying connection open and still reads; closing the sibling does not disturb the pending read, which receives the next packet",
 					Bounds: "2 handles of one ufrag, one reader goroutine, 3 deadline configurations x {close own handle, close sibling}; every schedule with at most 1 (thorough 2) preemptions at synchronisation points", MustReach: []string{"deadline-armed", "own-close", "sibling-close", "done"},
 					Cfg: func(c *HarnessCfg, tier int) {
@@ -362,6 +381,14 @@ func allChecks() []CheckSpec {
 						c.ContextBound = 1 + tier
 						c.MaxPaths = 2000000
 						c.MaxWallS = 900
+					}},
+				{Fn: "verifC13TwoPendingReads", Lemma: "schedule exploration over the real sharedPacketConn.ReadFrom/Close and udpMuxedConn.readPacket/writePacket: both handles have a read pending (or starting) when a datagram arrives while one handle is being closed: the wake-up is not lost with the closed handle — its read either took the datagram before the close reached it or fails, and the sibling's pending read gets the queued datagram; nothing stays queued and nobody stays asleep",
+					Bounds: "2 handles of one ufrag, 2 readers, 1 closer, 1 datagram (+1 when the closed handle took the first), readers given 0..2 hand-overs to park; schedules with <= 1 (thorough 2) preemptions; a select with several ready cases is a choice point", MustReach: []string{"closed-handle-took-it-first", "closed-handle's-read-failed", "done"},
+					Cfg: func(c *HarnessCfg, tier int) {
+						c.GoPolicy = "explore"
+						c.ContextBound = 1 + tier
+						c.MaxPaths = 3000000
+						c.MaxWallS = 1200
 					}},
 				{Fn: "verifC13TCPSiblingWrite", Lemma: "TCP mux: two handles of one ufrag share a tcpPacketConn with an attached TCP connection; one user leaves — plainly, or the way candidateBase.abortIO does (SetDeadline(now), then Close) — and the sibling's writes to the peer still go out",
 					Bounds: "one attached peer, symbolic payload, leave by Close or by SetDeadline(now)+Close; the fake connection fails writes once a write deadline at or before now is set", MustReach: []string{"abort-then-close", "done"},
@@ -467,8 +494,8 @@ func allChecks() []CheckSpec {
 					Bounds: "2 local x 1 remote pairs with symbolic states and priorities 1..256, selection nil/any, payload lengths {0,1,19,20,24} with all bytes symbolic (covers the STUN cookie window), per-socket outcome ok/error/ErrClosedPipe, open/closed agent", MustReach: []string{"closed", "stun-like", "no-valid-pair", "socket-error", "sent", "done"}},
 				{Fn: "verifC07WriteToPair", Lemma: "Conn.WriteToPair: unknown id or not-Succeeded pair => its error and nothing sent; else one datagram on that pair with the same bytes; counters",
 					Bounds: "any 64-bit id, symbolic pair states, payload lengths {1,19,20,24}", MustReach: []string{"unknown-id", "not-succeeded", "sent", "done"}},
-				{Fn: "verifC07Inbound", Lemma: "non-STUN datagram at a local candidate: reaches the reader exactly once and byte-identical iff its source is (cached as) a known remote of the same transport; otherwise dropped with no state change; cache entries only map an address to the current remote with that address; Read adds exactly the returned n; each delivered datagram (the first and the cache-answered next one) refreshes the sender's LastReceived and no other remote's",
-					Bounds: "1 local + 2 UDP remotes + 1 TCP remote with another address, source = any IPv4 address:port / the TCP remote / IPv4-mapped remote, cache empty or pre-filled, payload lengths {1,19,20,24}", MustReach: []string{"unknown-source", "known-source", "done"}},
+				{Fn: "verifC07Inbound", Lemma: "non-STUN datagram at a local candidate: reaches the reader exactly once and byte-identical iff its source is (cached as) a known remote of the same transport and the agent could vouch for it (a datagram that arrives while the loop is closed or the candidate is being torn down is dropped unless the candidate's cache holds its source); otherwise dropped with no state change; cache entries only map an address to the current remote with that address; Read adds exactly the returned n; each delivered datagram (the first and the cache-answered next one) refreshes the sender's LastReceived and no other remote's",
+					Bounds: "1 local + 2 UDP remotes + 1 TCP remote with another address, source = any IPv4 address:port / the TCP remote / IPv4-mapped remote, cache empty or pre-filled, agent loop open / closed / local candidate being torn down (context done, receive loop still running), payload lengths {1,19,20,24}", MustReach: []string{"unknown-source", "known-source", "loop-closed", "candidate-closing", "done"}},
 				{Fn: "verifC07InboundSTUN", Lemma: "STUN-looking datagrams (header-only, any type/transaction id) at the socket (handleInboundPacket) never reach the reader buffer and, carrying no credentials, change nothing — liveness instants included, also when the source is in the per-candidate data cache; only an indication may refresh liveness",
 					Bounds: "20-byte header with the magic cookie, symbolic type and transaction id, source = the known remote or any IPv4 address, cache empty or holding the remote", MustReach: []string{"source-cached", "indication", "done"}},
 			},
